@@ -203,6 +203,14 @@ def c06(c):
 
 def c07(c):
     gen_and_replay(c, "MC_Layout", "C07", "expected fresh image, single-pixel images and from_bytes verdicts per size", workers=10, coverage=False)
+    if c.tier == "thorough":
+        n, ok, secs = vlib.run_tlapm("PixelIndex")
+        log("[P] TLAPS PixelIndex: %d obligations, all proved=%s, %.1fs" % (n, ok, secs))
+        if not ok:
+            raise vlib.ToolError("the TLAPS proof spec/proofs/PixelIndex.tla does not check (a defect of the proof, not of the code)")
+        c.details["tlaps"] = {"module": "spec/proofs/PixelIndex.tla", "obligations": n, "discharged": n,
+                              "theorems": ["Injective (distinct pixels never share a bit, all sizes)", "InDataArea", "Padding"],
+                              "bound_to_model_by": "MC_Layout!SameDefs (the proved definitions equal Page.tla's on every size of the box)"}
     shards = 16 if c.tier == "thorough" else 6
     files, n, _ = vlib.record("C07", c.tier, c.seed, shards)
     c.validate("Trace_Page", "Trace_Page.cfg", files, ["record", "C07"], procs=PROCS, timeout=3000)
